@@ -44,7 +44,12 @@ class MiniPCNSMC(SMCSampler):
         self.sampler_kwargs.setdefault("target_acceptance_rate", 0.234)
         self.sampler_kwargs.setdefault("step_fn", "tpcn")
         self.backend_str = determine_backend_name(xp=self.xp)
-        self.rng = rng or ArrayRNG(backend=self.backend_str)
+        if rng is not None:
+            self.rng = rng
+        elif not getattr(self, "_rng_supplied", False):
+            # Only fall back to a fresh generator when the user did not
+            # supply one when constructing the sampler.
+            self.rng = ArrayRNG(backend=self.backend_str)
         return super().sample(
             n_samples,
             n_steps=n_steps,
